@@ -2311,8 +2311,8 @@ def preprocess_file(
 
     if pp_defs is None:
         pp_defs = {}
-    if include_dirs is None:
-        include_dirs = set()
+    # The caller's search path is not extended by the files that are processed
+    include_dirs = set() if include_dirs is None else set(include_dirs)
     if file_path is not None:
         include_dirs.add(os.path.abspath(os.path.dirname(file_path)))
         # Files currently being expanded, innermost last
